@@ -1,10 +1,12 @@
 """C04: reported concrete paths are truthful; path modifiers mean what they say."""
+from .. import coqenc as E
 from ..passes import run_passes
 from ..runner import jval
 from ..valgen import Gen, copy_value, type_exact_eq
 from ..condgen import CondGen
 from ..pathgen import PathGen, DT_MODS, MT_MODS
 from ..pathterms import PathT
+from ..terms import valida
 from . import c03
 
 PROP = "C04"
@@ -57,6 +59,44 @@ def direct(pt, doc):
     return out, 1
 
 
+def ctor_check(g, pt, doc):
+    """The modifiers given through the CONSTRUCTOR (datum_type= / multi_type=, as enum member or raw value) mean what the modifier methods
+    mean: on a concrete path a multiplicity modifier is refused by either route; otherwise the two paths are == and select the same."""
+    v = valida()
+    d = g.r.choice(DT_MODS + [None])
+    m = g.r.choice(MT_MODS + ["any", None])
+    if d is None and m is None:
+        return []
+    mods = [x for x in (d, m) if x is not None]
+    kw = {}
+    if d is not None:
+        member = getattr(v.datapath.DataPathDatumType, d.upper())
+        kw["datum_type"] = member if g.r.random() < 0.5 else member.value
+    if m is not None:
+        member = getattr(v.datapath.DataPathMultiType, m.upper())
+        kw["multi_type"] = member if g.r.random() < 0.5 else member.value
+    try:
+        parts = PathT(pt.parts, []).build(parts_only=True)
+    except Exception:
+        return []
+    by_method = E.run_outcome(lambda: PathT(pt.parts, mods).build())
+    by_ctor = E.run_outcome(lambda: v.DataPath(*parts, **kw))
+    if by_method[0] == "exc":
+        if by_ctor[0] != "exc":
+            return [{"kind": "direct", "what": f"modifiers {mods} are refused by the modifier methods ({by_method[1]}) but accepted through the constructor",
+                     "path": pt.descr()[:300]}]
+        return []
+    if by_ctor[0] == "exc":
+        return [{"kind": "direct", "what": f"modifiers {mods} are accepted by the modifier methods but refused through the constructor ({by_ctor[1]})",
+                 "path": pt.descr()[:300]}]
+    a = E.run_outcome(lambda: by_method[1].get_data(copy_value(doc), return_paths=True))
+    b = E.run_outcome(lambda: by_ctor[1].get_data(copy_value(doc), return_paths=True))
+    if a != b or not (by_method[1] == by_ctor[1]):
+        return [{"kind": "direct", "what": f"modifiers {mods} given through the constructor differ from the modifier methods", "path": pt.descr()[:300],
+                 "doc": jval(doc), "methods": repr(a)[:200], "constructor": repr(b)[:200]}]
+    return []
+
+
 def commute_check(g, pt, doc):
     d, m = g.r.choice(DT_MODS), g.r.choice(MT_MODS)
     res = []
@@ -86,6 +126,8 @@ def run(tier, seed, model_ok, spec_ok, replay=None):
         elif g.r.random() < 0.06:
             doc, pt = pg.mixed_doc_and_path()
         elif g.r.random() < 0.06:
+            doc, pt = pg.wide_doc_and_path()
+        elif g.r.random() < 0.06:
             # one part object at several positions, over a homogeneous nest of mappings / lists with dead ends
             kind = g.r.choice(["dict", "list"])
             doc = g.container(4, 3, kind)
@@ -101,6 +143,9 @@ def run(tier, seed, model_ok, spec_ok, replay=None):
         nd += k
         if g.r.random() < 0.3:
             dviol += commute_check(g, pt, doc)
+            nd += 1
+        if g.r.random() < 0.3:
+            dviol += ctor_check(g, pt, doc)
             nd += 1
     k_bad, o_bad, nk, no, err = run_passes("c04", IMPORTS, cases, model_ok, spec_ok)
     res = c03.summarise(cases, k_bad, o_bad, nk, no, err,
